@@ -1,14 +1,184 @@
-"""Reference Ninja evaluator shipped in /verif: the *structure* of build.ninja (lines, rule/build blocks,
-indentation) is split here in Python (trusted harness code); every piece of text is lexed and evaluated by the
-extracted Coq model Ninja/NinjaRead.v (lex_value, lex_paths, neval, scoping)."""
+"""Reference Ninja evaluator shipped in /verif.  The whole evaluator is the extracted Coq model: the structure of
+build.ninja (lines, rule/build blocks, indentation, scoping: Ninja/NinjaManifest.v parse_manifest, command_of) as
+well as lexing and evaluation (Ninja/NinjaRead.v).  This module only decodes the model's answer into the Python
+API used by the checks (Manifest.vars/.rules/.builds/.defaults/.command/.edge_for).
+
+The former Python structure splitter is kept as an independent CROSS-CHECK only (`_parse_py`): both must agree on
+every manifest seen (file-level values, rule names and bindings, every field of every edge, defaults);
+a disagreement raises NinjaDisagreement (a NinjaError), which C02 reports as a broken obligation."""
 from . import common
 from .common import d_str, d_opt, d_list
+
+STATS = {'manifests': 0, 'edges': 0, 'commands': 0, 'disagreements': 0}
 
 
 class NinjaError(Exception):
     pass
 
 
+class NinjaDisagreement(NinjaError):
+    """the extracted structure parser and the Python splitter differ, or the manifest leaves the domain on which the
+    trusted model is known to coincide with Ninja"""
+
+
+def _render(toks):
+    """token list of the model -> readable raw text (display only)"""
+    out = []
+    for t in toks:
+        if t[0] == 0:
+            out.append('$$' if t[1] == 36 else chr(t[1]))
+        else:
+            out.append('${%s}' % d_str(t[1]))
+    return ''.join(out)
+
+
+def _d_alist(x):
+    return [(d_str(p[0]), d_str(p[1])) for p in x]
+
+
+def _d_tbinds(x):
+    return [(d_str(p[0]), p[1]) for p in x]
+
+
+class Manifest:
+    def __init__(self, text=''):
+        self.text = text
+        self.vars = {}        # file-level, evaluated (may be edited by the caller: the edited scope is used by command())
+        self.rules = {}       # name -> {var: raw text (rendered from the model's tokens)}
+        self.rule_toks = {}   # name -> [(var, tokens)]
+        self.builds = []      # dicts: outputs, rule, inputs, implicit, order_only, bindings [(name, raw text)],
+        #                               bound [(name, value)], toks [(name, tokens)], index
+        self.defaults = []
+        self._cache = None
+
+    def edge_for(self, output):
+        for b in self.builds:
+            if output in b['outputs']:
+                return b
+        return None
+
+    def _values(self):
+        key = tuple(self.vars.items())
+        if self._cache is None or self._cache[0] != key:
+            r = common.model_batch([('ninja.edges', [self.text, [[k, v] for k, v in key]])])[0]
+            if not r:
+                raise NinjaError('the model cannot parse the manifest')
+            vals = [[d_opt(d_str, f) for f in e] for e in r[0]]
+            if len(vals) != len(self.builds):
+                raise NinjaDisagreement('ninja.edges returns %d edges, parse_manifest %d' % (len(vals), len(self.builds)))
+            self._cache = (key, vals)
+            STATS['commands'] += len(vals)
+        return self._cache[1]
+
+    def _field(self, output, i, what):
+        b = self.edge_for(output)
+        if b is None:
+            raise NinjaError('no edge for %r' % output)
+        if b['rule'] == 'phony':
+            return None
+        v = self._values()[b['index']][i]
+        if v is None:
+            raise NinjaError('cannot evaluate %s of %r (cycle in rule variables)' % (what, output))
+        return v
+
+    def command(self, output):
+        """The command line Ninja would run to produce `output` (None for phony): model function command_of."""
+        return self._field(output, 0, 'command')
+
+    def depfile(self, output):
+        return self._field(output, 1, 'depfile')
+
+    def deps(self, output):
+        return self._field(output, 2, 'deps')
+
+    def description(self, output):
+        return self._field(output, 3, 'description')
+
+
+def _parse_model(text):
+    r = common.model_batch([('ninja.parse_manifest', [text])])[0]
+    if not r:
+        return None
+    vars_, rules, edges, defaults = r[0]
+    m = Manifest(text)
+    for k, v in _d_alist(vars_):
+        m.vars.pop(k, None)          # a later definition shadows and moves to the end, as in the model's scope
+        m.vars[k] = v
+    for name, binds in rules:
+        tb = _d_tbinds(binds)
+        m.rule_toks[d_str(name)] = tb
+        m.rules[d_str(name)] = {k: _render(t) for k, t in tb}
+    for i, e in enumerate(edges):
+        outs, rule, ins, imp, oo, bound, raw, selfref = e
+        tb = _d_tbinds(raw)
+        m.builds.append({'outputs': d_list(d_str, outs), 'rule': d_str(rule), 'inputs': d_list(d_str, ins),
+                         'implicit': d_list(d_str, imp), 'order_only': d_list(d_str, oo),
+                         'bindings': [(k, _render(t)) for k, t in tb], 'bound': _d_alist(bound), 'toks': tb,
+                         'refs_earlier': bool(selfref), 'index': i})
+    m.defaults = d_list(d_str, defaults)
+    return m
+
+
+def parse(text):
+    """build.ninja text -> Manifest, by the extracted model; cross-checked against the Python splitter."""
+    m = _parse_model(text)
+    try:
+        ref = _parse_py(text)
+        ref_err = None
+    except NinjaError as e:
+        if isinstance(e, NinjaDisagreement):
+            raise
+        ref, ref_err = None, str(e)
+    STATS['manifests'] += 1
+    if m is None and ref is None:
+        raise NinjaError('cannot parse manifest: %s' % ref_err)
+    if m is None or ref is None:
+        STATS['disagreements'] += 1
+        raise NinjaDisagreement('structure parsers disagree: the model %s, the Python splitter %s' % (
+            'rejects the manifest' if m is None else 'accepts the manifest',
+            'accepts it' if ref is not None else 'rejects it (%s)' % ref_err))
+    why = _compare(m, ref)
+    if why:
+        STATS['disagreements'] += 1
+        raise NinjaDisagreement('structure parsers disagree: ' + why)
+    for b in m.builds:
+        if b['refs_earlier']:
+            raise NinjaDisagreement('edge %r: a binding references an earlier binding of the same edge - real Ninja evaluates '
+                                    'edge bindings in the file scope only; outside the modelled domain' % (b['outputs'],))
+    STATS['edges'] += len(m.builds)
+    return m
+
+
+def _compare(m, ref):
+    if m.vars != ref.vars or list(m.vars) != list(ref.vars):
+        return 'file-level variables %r vs %r' % (sorted(set(m.vars.items()) ^ set(ref.vars.items()))[:4], '')
+    if list(m.rules) != list(ref.rules):
+        return 'rule names %r vs %r' % (list(m.rules), list(ref.rules))
+    if m.defaults != ref.defaults:
+        return 'defaults %r vs %r' % (m.defaults, ref.defaults)
+    if len(m.builds) != len(ref.builds):
+        return 'number of edges %d vs %d' % (len(m.builds), len(ref.builds))
+    calls, want = [], []
+    for name in m.rules:
+        if [k for k, _ in m.rule_toks[name]] != list(ref.rules[name]):
+            return 'keys of rule %r: %r vs %r' % (name, [k for k, _ in m.rule_toks[name]], list(ref.rules[name]))
+        for k, t in m.rule_toks[name]:
+            calls.append(('ninja.lex_value', [ref.rules[name][k]])); want.append(('rule %s.%s' % (name, k), t))
+    for a, b in zip(m.builds, ref.builds):
+        for f in ('outputs', 'rule', 'inputs', 'implicit', 'order_only'):
+            if a[f] != b[f]:
+                return '%s of edge %r: %r vs %r' % (f, a['outputs'], a[f], b[f])
+        if [k for k, _ in a['toks']] != [k for k, _ in b['bindings']]:
+            return 'binding names of edge %r' % (a['outputs'],)
+        for (k, t), (_, raw) in zip(a['toks'], b['bindings']):
+            calls.append(('ninja.lex_value', [raw])); want.append(('edge %r.%s' % (a['outputs'], k), t))
+    for (where, t), r in zip(want, common.model_batch(calls)):
+        if not r or r[0] != t:
+            return 'binding text of %s' % where
+    return None
+
+
+# ----------------------------------------------------------------------------- the cross-check splitter (Python)
 def _eval_value(env, text):
     r = common.model_batch([('ninja.eval_value', [[[k, v] for k, v in env.items()], text])])[0]
     v = d_opt(d_str, r)
@@ -24,64 +194,40 @@ def _lex_paths(env, text):
     return d_list(d_str, r[0][0]), d_str(r[0][1])
 
 
-class Manifest:
+class _Ref:
     def __init__(self):
-        self.vars = {}        # file-level, evaluated
-        self.rules = {}       # name -> {var: raw text}
-        self.builds = []      # dicts: outputs, rule, inputs, implicit, order_only, bindings [(name, raw text)]
-        self.defaults = []
-
-    def edge_for(self, output):
-        for b in self.builds:
-            if output in b['outputs']:
-                return b
-        return None
-
-    def command(self, output):
-        """The command line Ninja would run to produce `output` (None for phony)."""
-        b = self.edge_for(output)
-        if b is None:
-            raise NinjaError('no edge for %r' % output)
-        if b['rule'] == 'phony':
-            return None
-        rule = self.rules[b['rule']]
-        ins, outs = b['inputs'], b['outputs']
-        r = common.model_batch([
-            ('ninja.in_out', [ins]), ('ninja.in_out', [outs])])
-        in_s, out_s = d_str(r[0]), d_str(r[1])
-        raw = common.model_batch([('ninja.command', [[[k, v] for k, v in self.vars.items()],
-                                                    [[n, t] for n, t in b['bindings']], in_s, out_s,
-                                                    rule['command']])])[0]
-        if not raw:
-            raise NinjaError('cannot evaluate command of %r' % output)
-        return d_str(raw[0])
+        self.vars, self.rules, self.builds, self.defaults = {}, {}, [], []
 
 
-def parse(text):
-    m = Manifest()
+def _parse_py(text):
+    """Line/block structure split in Python (the former reference evaluator); lexing by the model's primitives."""
+    m = _Ref()
     lines = text.split('\n')
     i = 0
-    # join $-newline continuations (bfg9000 never emits them; keep the reader honest anyway)
     cur = None
     while i < len(lines):
         line = lines[i]
         i += 1
-        if not line.strip() or line.lstrip().startswith('#'):
-            cur = None if not line.startswith(' ') else cur
+        if line.lstrip(' ').startswith('#'):
+            continue                       # Ninja's lexer skips comment lines entirely
+        if not line.strip(' '):
+            cur = None
             continue
         if line.startswith(' '):
             if cur is None:
                 raise NinjaError('unexpected indent: %r' % line)
-            name, sep, val = line.strip().partition(' = ')
-            if not sep:
-                name, sep, val = line.strip().partition(' =')
+            # the value runs to the end of the line (trailing blanks belong to it); a name cannot contain '='
+            name, sep, val = line.lstrip(' ').partition('=')
+            name = name.rstrip(' ')
+            if not sep or not name:
+                raise NinjaError('cannot parse binding %r' % line)
             if cur[0] == 'rule':
                 m.rules[cur[1]][name] = val
             else:
                 cur[1]['bindings'].append((name, val))
             continue
         if line.startswith('rule '):
-            name = line[5:].strip()
+            name = line[5:].strip(' ')
             m.rules[name] = {}
             cur = ('rule', name)
         elif line.startswith('build '):
@@ -101,7 +247,7 @@ def parse(text):
                     rest = rest.lstrip(' ')
                     if rest.startswith('||'):
                         order_only, rest = _lex_paths(m.vars, rest[2:].lstrip(' '))
-                if rest.strip():
+                if rest.strip(' '):
                     raise NinjaError('trailing text in build line %r: %r' % (line, rest))
             b = {'outputs': outs, 'rule': rule, 'inputs': inputs, 'implicit': implicit, 'order_only': order_only,
                  'bindings': []}
@@ -112,11 +258,12 @@ def parse(text):
             m.defaults.extend(ps)
             cur = None
         else:
-            name, sep, val = line.partition(' = ')
-            if not sep:
-                name, sep, val = line.partition(' =')
-            if not sep:
+            name, sep, val = line.partition('=')
+            name = name.rstrip(' ')
+            if not sep or not name:
                 raise NinjaError('cannot parse line %r' % line)
-            m.vars[name] = _eval_value(m.vars, val)
+            v = _eval_value(m.vars, val)
+            m.vars.pop(name, None)
+            m.vars[name] = v
             cur = None
     return m
